@@ -378,6 +378,16 @@ func runC08(p *Program, r *Report) {
 
 // forwardsRead reports whether Read method f returns the results of call c unchanged.
 func forwardsRead(f *ssa.Function, c *ssa.Call) bool {
+	// a wrapper that keeps state between calls (a budget, a position) can make its refusals — and so
+	// the result — depend on how many bytes earlier reads happened to return
+	stateless := true
+	for _, b := range f.Blocks {
+		for _, in := range b.Instrs {
+			if _, isStore := in.(*ssa.Store); isStore {
+				stateless = false
+			}
+		}
+	}
 	for _, b := range f.Blocks {
 		for _, in := range b.Instrs {
 			ret, ok := in.(*ssa.Return)
@@ -386,6 +396,11 @@ func forwardsRead(f *ssa.Function, c *ssa.Call) bool {
 			}
 			if len(ret.Results) != 2 {
 				return false
+			}
+			// a refusal before reading — return 0, err (a cancelled context, a closed wrapper) —
+			// delivers no byte and so cannot depend on the schedule
+			if n0, isC := constInt(ret.Results[0]); stateless && isC && n0 == 0 && !isNilConst(ret.Results[1]) && !dominatesInstr(c, ret) {
+				continue
 			}
 			for i, rv := range ret.Results {
 				ex, ok := rv.(*ssa.Extract)
